@@ -35,7 +35,7 @@ func genC14(t *rapid.T) c14Case {
 	var c c14Case
 	c.Family = rapid.SampledFrom([]string{"value", "value", "throw", "syntax", "loop", "loop", "slow"}).Draw(t, "family")
 	c.Variant = rapid.IntRange(0, 5).Draw(t, "variant")
-	c.Placement = rapid.SampledFrom([]string{"run", "action", "condition"}).Draw(t, "placement")
+	c.Placement = rapid.SampledFrom([]string{"run", "action", "condition", "condition-not"}).Draw(t, "placement")
 	c.Source = rapid.SampledFrom([]string{"control", "control", "default", "off", "locoff"}).Draw(t, "source")
 	if c.Family == "loop" && (c.Source == "off" || c.Source == "locoff") {
 		c.Source = "control"
@@ -185,8 +185,12 @@ func runC14(c c14Case) *vlib.Outcome {
 			} else if res.err == nil {
 				res.err = fmt.Errorf("unexpected work tree")
 			}
-		case "condition":
-			rule := M{"when": M{"pattern": M{"x": "?x", "s": "?s"}}, "condition": M{"code": code}, "action": M{"code": "'ran'"}}
+		case "condition", "condition-not":
+			var cq interface{} = M{"code": code}
+			if c.Placement == "condition-not" {
+				cq = M{"not": M{"code": code}}
+			}
+			rule := M{"when": M{"pattern": M{"x": "?x", "s": "?s"}}, "condition": cq, "action": M{"code": "'ran'"}}
 			if _, err := loc.AddRule(newCtx(), "r", core.Map(rule)); err != nil {
 				res.err = fmt.Errorf("AddRule: %v", err)
 				return
@@ -233,7 +237,7 @@ func runC14(c c14Case) *vlib.Outcome {
 		if res.err == nil || res.complete {
 			o.Fail("TIMEOUT_REPORTED_AS_SUCCESS", "%s: a script stopped by the timeout was reported as success (value %v, error %v)", desc, res.value, res.err)
 		}
-		if c.Placement == "condition" && res.ranAfter {
+		if strings.HasPrefix(c.Placement, "condition") && res.ranAfter {
 			o.Fail("ACTION_RAN_AFTER_FAILED_CONDITION", "%s: the action ran although the condition script did not finish", desc)
 		}
 		if elapsed < limit {
@@ -243,7 +247,7 @@ func runC14(c c14Case) *vlib.Outcome {
 			o.Label("slow-stop>1s")
 		}
 	case "throw", "syntax":
-		if c.Family == "syntax" && c.Placement == "condition" {
+		if c.Family == "syntax" && strings.HasPrefix(c.Placement, "condition") {
 			// a condition is compiled when the rule is added: the
 			// rule is rejected there
 			if res.err == nil {
@@ -254,7 +258,7 @@ func runC14(c c14Case) *vlib.Outcome {
 		if res.err == nil || res.complete {
 			o.Fail("ERROR_REPORTED_AS_SUCCESS", "%s: a failing script was reported as success (value %v, complete %v)", desc, res.value, res.complete)
 		}
-		if c.Placement == "condition" && res.ranAfter {
+		if strings.HasPrefix(c.Placement, "condition") && res.ranAfter {
 			o.Fail("ACTION_RAN_AFTER_FAILED_CONDITION", "%s: the action ran although the condition script failed", desc)
 		}
 	default: // value, slow
@@ -262,8 +266,11 @@ func runC14(c c14Case) *vlib.Outcome {
 			o.Fail("GOOD_SCRIPT_FAILED", "%s: a script that finishes within the limit failed: %v (after %v)", desc, res.err, elapsed)
 			break
 		}
-		if c.Placement == "condition" {
+		if strings.HasPrefix(c.Placement, "condition") {
 			truthy := want != nil && want != false
+			if c.Placement == "condition-not" {
+				truthy = !truthy
+			}
 			if res.ranAfter != truthy {
 				o.Fail("CONDITION_VALUE", "%s: condition value %v but action ran = %v", desc, want, res.ranAfter)
 			}
